@@ -96,6 +96,11 @@ class SV:
             return SymNd(np.asarray(g(o), dtype=object))
         if isinstance(o, SSparse):
             return NotImplemented
+        if isinstance(o, (complex, SC)):
+            name = getattr(f, "__name__", "")
+            me, ot = SC(self.v, 0), SC.of(o)
+            a_, b_ = (ot, me) if swap else (me, ot)
+            return {"add": lambda: a_ + b_, "sub": lambda: a_ - b_, "mul": lambda: a_ * b_, "_div": lambda: a_ / b_}[name]()
         b = _num(o)
         if isinstance(b, _Inf) or isinstance(self.v, _Inf):
             return self._inf_arith(b, f, swap)
@@ -279,6 +284,89 @@ class SV:
         if isinstance(v, NF):
             return wrap(v.nan) if sx.is_sym(v.nan) else bool(v.nan)
         return False
+
+
+class SC:
+    """complex scalar with SV-compatible parts (re, im are sx values)"""
+    __slots__ = ("re", "im")
+    __array_priority__ = 100.0
+
+    def __init__(self, re, im=0):
+        self.re, self.im = unwrap(re), unwrap(im)
+
+    @staticmethod
+    def of(x):
+        if isinstance(x, SC):
+            return x
+        if isinstance(x, complex):
+            return SC(_num(x.real), _num(x.imag))
+        return SC(_num(x), 0)
+
+    def __add__(self, o):
+        o = SC.of(o)
+        return SC(sx.add(self.re, o.re), sx.add(self.im, o.im))
+
+    __radd__ = __add__
+
+    def __sub__(self, o):
+        o = SC.of(o)
+        return SC(sx.sub(self.re, o.re), sx.sub(self.im, o.im))
+
+    def __rsub__(self, o):
+        return SC.of(o) - self
+
+    def __mul__(self, o):
+        if isinstance(o, np.ndarray):
+            return NotImplemented
+        o = SC.of(o)
+        return SC(sx.sub(sx.mul(self.re, o.re), sx.mul(self.im, o.im)), sx.add(sx.mul(self.re, o.im), sx.mul(self.im, o.re)))
+
+    __rmul__ = __mul__
+
+    def __truediv__(self, o):
+        if isinstance(o, SC):
+            d = sx.add(sx.mul(o.re, o.re), sx.mul(o.im, o.im))
+            n = self * SC(o.re, sx.neg(o.im))
+            return SC(_div(n.re, d), _div(n.im, d))
+        o = _num(o)
+        return SC(_div(self.re, o), _div(self.im, o))
+
+    def __neg__(self):
+        return SC(sx.neg(self.re), sx.neg(self.im))
+
+    def __abs__(self):
+        return SV(root(sx.add(sx.mul(self.re, self.re), sx.mul(self.im, self.im)), 2))
+
+    def abs2(self):
+        return sx.add(sx.mul(self.re, self.re), sx.mul(self.im, self.im))
+
+    def conjugate(self):
+        return SC(self.re, sx.neg(self.im))
+
+    @property
+    def real(self):
+        return wrap(self.re) if sx.is_sym(self.re) or isinstance(self.re, Fraction) else self.re
+
+    @property
+    def imag(self):
+        return wrap(self.im) if sx.is_sym(self.im) or isinstance(self.im, Fraction) else self.im
+
+    def exp(self):
+        """exp(i*phi) for a purely imaginary argument: unit complex number (c, s) with c^2 + s^2 = 1"""
+        if not (not sx.is_sym(self.re) and self.re == 0):
+            raise Unsupported("exp of a complex number with non-zero real part")
+        ex = current()
+        c, s_ = ex.fresh("real", "cos"), ex.fresh("real", "sin")
+        con = c * c + s_ * s_ == 1
+        ex.extra.append(con)
+        ex.solver.add(con)
+        return SC(c, s_)
+
+    def __hash__(self):
+        return id(self)
+
+    def __repr__(self):
+        return f"SC({self.re},{self.im})"
 
 
 def _div(a, b):
@@ -1007,7 +1095,23 @@ class NpProxy(types.ModuleType):
         return getattr(_real_np, name)(a)
 
     def exp(self, a):
+        if isinstance(a, SC):
+            return a.exp()
+        if isinstance(a, np.ndarray) and a.dtype == object and a.size and any(isinstance(x, SC) for x in a.ravel()):
+            return np.frompyfunc(lambda x: SC.of(x).exp(), 1, 1)(a).view(SymNd)
         return self._uf("exp", a)
+
+    def real(self, a):
+        if isinstance(a, np.ndarray) and a.dtype == object:
+            return np.frompyfunc(lambda x: x.real if isinstance(x, (SC, SV)) else x, 1, 1)(a).view(SymNd)
+        return _real_np.real(a)
+
+    def ascontiguousarray(self, a, **kw):
+        return a if isinstance(a, SymNd) else _real_np.ascontiguousarray(a, **kw)
+
+    @property
+    def fft(self):
+        return FFT
 
     def log(self, a):
         return self._uf("log", a)
@@ -1193,6 +1297,41 @@ def exactify(a):
         else:
             of[i] = v
     return SymNd(out)
+
+
+class _FFTStub:
+    """environment stub for numpy.fft: rfft returns an arbitrary complex spectrum of the right shape (the same one for the
+    same input array object), irfft an arbitrary real array; contract irfft(rfft(x)) = x is NOT assumed"""
+
+    def __init__(self):
+        self.count = 0
+
+    def rfft(self, a, axis=-1, **kw):
+        ex = current()
+        a = np.asarray(a, dtype=object)
+        n = a.shape[axis]
+        shape = list(a.shape)
+        shape[axis] = n // 2 + 1
+        out = np.empty(shape, dtype=object)
+        flat = out.reshape(-1)
+        for i in range(flat.size):
+            flat[i] = SC(ex.fresh("real", "fre"), ex.fresh("real", "fim"))
+        return SymNd(out)
+
+    def irfft(self, a, n=None, axis=-1, **kw):
+        ex = current()
+        a = np.asarray(a, dtype=object)
+        shape = list(a.shape)
+        shape[axis] = n if n is not None else 2 * (a.shape[axis] - 1)
+        out = np.empty(shape, dtype=object)
+        flat = out.reshape(-1)
+        self.last_irfft_input = a
+        for i in range(flat.size):
+            flat[i] = SV(ex.fresh("real", "ifft"))
+        return SymNd(out)
+
+
+FFT = _FFTStub()
 
 
 def _rewrap(r):
